@@ -266,6 +266,48 @@ func TestVF_C08_Cluster(t *testing.T) {
 		}})
 }
 
+// The streaming half of C08: an on-disk state machine streams its snapshot to a
+// follower that fell behind the compacted log while the apply worker keeps applying
+// (PrepareSnapshot of the test state machine takes a few Update calls' time). The
+// follower is cut off and healed several times under continuous write load.
+func TestVF_C08_StreamUnderLoad(t *testing.T) {
+	streamUnderLoad(t, "TestVF_C08_StreamUnderLoad", "C08", famE6C08)
+}
+
+// the same schedule family decided against C02's oracles (replicas at the same applied
+// index hold identical state; applied streams agree)
+func TestVF_C02_StreamUnderLoad(t *testing.T) {
+	streamUnderLoad(t, "TestVF_C02_StreamUnderLoad", "C02", famE6C02)
+}
+
+func streamUnderLoad(t *testing.T, name, prop string, family map[string]bool) {
+	runE6(t, e6Profile{name: name, prop: prop, family: family,
+		tune: func(t *rapid.T, p *Plan) {
+			p.Kind = KindOnDisk
+			p.NonVoting = false
+			p.Hosts = 3
+			p.Sessions = false
+			p.ReadPct = 5
+			p.SnapEntries = uint64(3 + vfhelp.PickN(t, "snapentries2", 4))
+			p.Overhead = 1
+			p.Clients = 4
+			p.OpsPerCli = 70 + vfhelp.PickN(t, "ops2", 40)
+			p.WidenUs = 150 + vfhelp.PickN(t, "widenus2", 400)
+			p.SlowSnapMs = 0
+			a := vfhelp.Pick(t, "lag", 2)
+			p.Faults = nil
+			for i := 0; i < 4; i++ {
+				p.Faults = append(p.Faults,
+					Fault{Kind: FIsolate, A: a, AfterMs: 8 + vfhelp.PickN(t, "lagafter", 25)},
+					Fault{Kind: FHeal, AfterMs: 25 + vfhelp.PickN(t, "healafter", 40)})
+			}
+		},
+		rule: "non-trivial = a running replica accepted a streamed snapshot while client writes were still being applied (a snapshot installed and the writers not yet finished)",
+		nontriv: func(res *Result) bool {
+			return len(res.Rec.Installed) > 0 && res.Rec.CallCount["RecoverFromSnapshot"] > 0
+		}})
+}
+
 // C06 end to end: many overlapping ReadIndex requests (local and via followers /
 // non-voting replicas) racing with writes, leader changes and partitions.
 func TestVF_C06_Cluster(t *testing.T) {
